@@ -1,3 +1,4 @@
 -- Root of the `RainModel` library: models, lemmas, property theorems.
 import RainModel.Model.Blocks
 import RainModel.Model.ResourceManager
+import RainModel.Model.WebseedCap
